@@ -79,8 +79,14 @@ def g_ws2d(rng, cls, dtype):
 
 def _smooth_y(rng, cls, dtype="float64", nodata=-3000.0):
     n = _n(rng, cls, lo=2)
-    mode = rng.integers(0, 5) if cls != "random" else 4
+    mode = rng.integers(0, 7) if cls != "random" else int(rng.choice([4, 4, 4, 5, 6]))
     y = _series(rng, n, "float64", nodata=nodata, miss=(0.3 if rng.random() < 0.5 else 0.0))
+    if mode == 5:  # flat: every residual is zero, every re-weighting pass of the robust kernels keeps its weights
+        y[y != nodata] = float(rng.choice([0, 1, 5000, -17]))
+    elif mode == 6 and n >= 6:  # flat with a spike or two
+        y[y != nodata] = float(rng.integers(50, 3000))
+        k = rng.choice(n, 2, replace=False)
+        y[k] = np.where(y[k] != nodata, y[k] + rng.integers(300, 3000, 2), y[k])
     if mode == 0:
         y[:] = nodata  # all missing
     elif mode == 1:
